@@ -406,6 +406,13 @@ fn eval_stress(c: &StressCase, obs: &mut CaseObs, prop: &str) -> Verdict {
             }
             Verdict::Pass
         }
+        "C02" => {
+            obs.nontrivial = out.explored >= 3 && out.best_solution.is_some();
+            match check_solution(&c.t, &out, true, true) {
+                Ok(()) => Verdict::Pass,
+                Err(e) => Verdict::Fail(format!("real-thread run: {e} [{:?}]", out)),
+            }
+        }
         "C05" => {
             obs.nontrivial = out.fired && out.lb > isize::MIN && out.ub < isize::MAX;
             if out.fired {
@@ -438,7 +445,7 @@ pub fn stress(ctx: &mut Ctx, prop: &'static str) {
         return; // already decided by the scheduled part; a real-thread hang would only cost a watchdog period
     }
     // shards run concurrently: keep the number of OS threads reasonable
-    let cases = ctx.tier.pick(600, 8_000);
+    let cases = ctx.tier.pick(if prop == "C02" { 1_500 } else { 600 }, 8_000);
     let p = GenParams { n: (4, 7), b: (2, 4), nd: (2, 3), embed: None, allow_irrelevance: true, allow_potential: true };
     let with_cut = prop == "C05";
     let strat = (table_strategy(p), config_strategy(ConfigGen { max_width: 2, ..Default::default() }), 2usize..=16, 1usize..120).prop_map(move |(t, cfg, threads, k)| StressCase { t, cfg, threads, fire_at: if with_cut { Some(k) } else { None } });
